@@ -544,6 +544,11 @@ class Interp:
         argv = [self.ev(a) for a in args]
         scope = {}
         for (pt, pn), av in zip(params, argv):
+            if pt == "Signal" and av.kind == "int":
+                # an integer bound to a Signal parameter becomes an anonymous constant signal: operations on it are
+                # folded (if at all) by IR-level constant propagation, not by the AST folder
+                av = self.sigval(None, av.value)
+                av.k = 2
             scope[pn] = av
         saved = self.scopes
         self.scopes = [saved[0], scope]
